@@ -51,10 +51,10 @@ def _build(case):
             tr["mac"].append((seqid, bytes(data), bytes(m)))      # the genuine (seq, packet, MAC) triples
             return m
 
-    def ciphers(out_cip=None, out_mac=None):
-        # (outgoing cipher, incoming cipher, outgoing MAC, incoming MAC): the receiver's OUTGOING direction is
-        # negotiated independently of the direction under test (RFC 4253 section 7.1)
-        c = RecCiphers(out_cip or cip, cip, out_mac or mac, mac)
+    def ciphers(out_cip, in_cip, out_mac, in_mac):
+        # SSHCiphers(outgoing cipher, incoming cipher, outgoing MAC, incoming MAC): the two directions are negotiated
+        # independently (RFC 4253 section 7.1); only the direction sender -> receiver (cip, mac) is under test
+        c = RecCiphers(out_cip, in_cip, out_mac, in_mac)
         c.setKeys(iv, key, iv, key, integ, integ)
         return c
 
@@ -108,7 +108,7 @@ def _build(case):
     # ---- sender: real sendPacket, deterministic "random" padding ------------------------------
     snd = transport.SSHTransportBase()
     snd.transport = StringTransport()
-    snd.currentEncryptions = ciphers()
+    snd.currentEncryptions = ciphers(cip, (case.get("scip") or case["cip"]).encode(), mac, mac)
     if case["comp"]:
         snd.outgoingCompression = Comp()
     old_random = transport.randbytes.secureRandom
@@ -144,7 +144,8 @@ def _build(case):
     # ---- receiver ------------------------------------------------------------------------------
     rcv = Rcv()
     rcv.transport = StringTransport()
-    rcv.currentEncryptions = ciphers((case.get("rcip") or case["cip"]).encode(), (case.get("rmac") or case["mac"]).encode())
+    rcv.currentEncryptions = ciphers((case.get("rcip") or case["cip"]).encode(), cip,
+                                     (case.get("rmac") or case["mac"]).encode(), mac)
     if case["comp"]:
         rcv.incomingCompression = Decomp()
     fed = []
@@ -156,7 +157,8 @@ def _build(case):
         rcv._v()
     bs = snd.currentEncryptions.encBlockSize
     sends = [f"S{pl.hex()}:{len(pad)}:{m[0]}" for pl, pad, m in zip(tr["plain"], tr["pads"], tr["mac"])]
-    tr.update(bs=bs, ms=MACS[case["mac"]], chunks=fed, sizes=sizes, prelen=len(pre))
+    tr.update(bs=bs, sdec=snd.currentEncryptions.decBlockSize, ms=MACS[case["mac"]], chunks=fed, sizes=sizes,
+              prelen=len(pre))
     return sends + events, tr
 
 
@@ -269,25 +271,40 @@ def _rekey(case):
         del w[:n]
         if not data:
             return False
+        if dst.transport.disconnecting:
+            return True         # the receiving end called loseConnection (after DISCONNECT): it reads nothing more
         cuts = sorted({rng.randrange(len(data) + 1) for _ in range(rng.choice([0, 0, 1, 3]))} | {0, len(data)})
         for a, b in zip(cuts, cuts[1:]):
             dst.dataReceived(data[a:b])
         return True
 
+    class Stuck(Exception):
+        pass
+
     def settle():
         for _ in range(200):
             if not (deliver(client, server) | deliver(server, client)):
                 return
-        raise RuntimeError("pump did not settle")
+        raise Stuck()
 
-    settle()
-    for p in sides.values():
-        p.setService(Recorder(p.got))
-        del p.hist[:], p.got[:]
     other = {"c": server, "s": client}
     limbo = []
-    for op in case["script"]:
-        k, side = op[0], op[1]
+    trouble = []
+
+    def drive():
+        settle()
+        for p in sides.values():
+            p.setService(Recorder(p.got))
+            del p.hist[:], p.got[:]
+        for op in case["script"]:
+            step(op)
+        settle()
+
+    def step(op):
+        k, side = op[0], op[1] if len(op) > 1 else None
+        if k == "settle":
+            settle()
+            return
         p = sides[side]
         if k == "send":
             p.hist.append(["S", op[2], op[3]])
@@ -306,14 +323,24 @@ def _rekey(case):
                 p.hist.append(["K"])     # the model's KStart is a no-op while an exchange is in progress
         elif k == "pump":
             deliver(p, other[side], op[2])
-    settle()
+    # anything the driven transports raise, or a pair that never comes to rest, is an OBSERVATION (never a crash of
+    # the check): the oracle turns it into a failure with this case as the replay
+    try:
+        drive()
+    except Stuck:
+        trouble.append("STUCK")
+    except Exception as e:      # noqa: BLE001 - the implementation under test may raise anything
+        trouble.append("EXC:" + type(e).__name__)
     fmt = lambda got: ",".join(f"{t}:{d.hex()}" for t, d in got)
     # what the peer dispatched is what this side put on the wire, in order
     obs = f"c>{fmt(server.got)}|q= s>{fmt(client.got)}|q="
     if client.errors or server.errors:
-        obs += f" ERR{len(client.errors)}/{len(server.errors)}"
+        codes = sorted({str(c) for c, _ in client.errors + server.errors})
+        obs += f" ERR{len(client.errors)}/{len(server.errors)}:" + "+".join(codes)
+    if trouble:
+        obs += " " + trouble[0]
     return obs, {"c": [h for h in client.hist if h[0] != "NK"], "s": [h for h in server.hist if h[0] != "NK"],
-                 "limbo": limbo}
+                 "limbo": limbo, "trouble": trouble}
 
 
 # --------------------------------------------------------------------------------------
@@ -343,8 +370,14 @@ def _oracle_rekey(case, obs):
             return Failure(case, f"sendDebug on side {tr['limbo'][0]} after it sent NEWKEYS and before it received the "
                            "peer's: sent under the old keys, the peer (already switched) disconnects",
                            "message-between-newkeys-uses-old-keys")
+    if "STUCK" in obs or "EXC:" in obs:
+        what = obs.split(" ")[-1]
+        return Failure(case, f"the client/server pair did not come to rest or raised ({what}) while re-keying", "rekey-" + what.lower())
     if "ERR" in obs:
-        return Failure(case, "a side received DISCONNECT during re-keying: " + obs[-40:], "rekey-disconnect")
+        codes = obs.split("ERR")[1].split(":")[1].split(" ")[0]
+        why = {"6": "compression error", "5": "MAC error", "2": "protocol error"}.get(codes, "code " + codes)
+        return Failure(case, f"a side received DISCONNECT ({why}) during/after re-keying: payloads after it are lost",
+                       "rekey-disconnect-" + codes)
     parts = obs.split(" ")
     for side, part in (("c", parts[0]), ("s", parts[1])):
         got = [m for m in part[2:].split("|q=")[0].split(",") if m]
@@ -482,6 +515,38 @@ def gen(rng, tier):
         cases.append({"cip": "none", "mac": "hmac-sha1", "comp": False, "banner": banner,
                       "version": _VERSIONS[0].hex(), "payloads": [_payload(rng)], "cuts": [rng.randrange(0, 5000)],
                       "corrupt": None, "seed": n})
+    # per-direction ciphers: full product (sender's outgoing = direction under test) x (sender's own incoming),
+    # payload lengths covering every residue mod 16
+    small_macs = ["hmac-md5", "hmac-sha1", "none"]
+    for cip in ciphers:
+        for scip in ciphers:
+            for lo in ((1, 9) if quick or CIPHERS[cip] != CIPHERS[scip] else (1,)):
+                if quick and CIPHERS[cip] == CIPHERS[scip] and rng.random() < 0.6:
+                    continue
+                base = rng.randrange(0, 48)
+                payloads = [(bytes([94]) + rng.randbytes(base + lo + j - 1)).hex() for j in range(8)]
+                cases.append({"cip": cip, "mac": rng.choice(small_macs), "comp": rng.random() < 0.15, "scip": scip,
+                              "rcip": rng.choice(ciphers), "banner": [], "version": _VERSIONS[0].hex(),
+                              "payloads": payloads, "cuts": [rng.randrange(0, 600) for _ in range(rng.randrange(0, 4))],
+                              "corrupt": None, "seed": rng.randrange(1 << 30)})
+    # zlib (and none) with completed re-keys: payloads before, between and after 1 or 2 key exchanges started by either side
+    k = 0
+    for comp in (True, True, False):
+        for first in "cs":
+            for second in (None, "c", "s"):
+                for rep in range(1 if quick else 6):
+                    k += 1
+                    def burst(tag):
+                        return [["send", rng.choice("cs"), rng.choice([50, 94, 95]), bytes([k % 251, tag, j]).hex()
+                                 + rng.randbytes(rng.randrange(0, 30)).hex()] for j in range(rng.randrange(1, 5))]
+                    script = burst(0) + [["rekey", first]]
+                    if rng.random() < 0.5:
+                        script += burst(1)          # handed to sendPacket while the exchange is in progress
+                    script += [["settle"]] + burst(2)
+                    if second:
+                        script += [["rekey", second]] + ([["pump", second, 1]] if rng.random() < 0.5 else []) + burst(3) \
+                                  + [["settle"]] + burst(4)
+                    cases.append({"kind": "rekey", "comp": comp, "seed": rng.randrange(1 << 30), "script": script})
     # re-keying while payloads flow: real client/server pair, key exchanges started at random points on either side
     for i in range(60 if quick else 1500):
         script = []
@@ -493,11 +558,13 @@ def gen(rng, tier):
                 script.append(["send", side, rng.choice([50, 80, 94, 94, 95, 255]), bytes([i % 251, j]).hex() + rng.randbytes(rng.randrange(0, 12)).hex()])
             elif r < 0.62:
                 script.append(["debug", side, bytes([j]).hex() + rng.randbytes(rng.randrange(0, 5)).hex()])
-            elif r < 0.8:
+            elif r < 0.78:
                 script.append(["rekey", side])
+            elif r < 0.86:
+                script.append(["settle"])
             else:
                 script.append(["pump", side, rng.choice([1, 1, 2, 3, 50])])
-        cases.append({"kind": "rekey", "comp": rng.random() < 0.3, "seed": rng.randrange(1 << 30), "script": script})
+        cases.append({"kind": "rekey", "comp": rng.random() < 0.4, "seed": rng.randrange(1 << 30), "script": script})
     return cases
 
 
@@ -526,6 +593,20 @@ def corpus():
           for o in (20, 40, 70, 100) for rc in ("none", "aes128-ctr")],
         {**base, "cip": "none", "mac": "none", "rmac": "hmac-sha1", "rcip": "aes256-cbc", "banner": [], "version": v,
          "payloads": ["5e0102", "5e03"], "cuts": [30], "corrupt": None, "seed": 10},
+        # outgoing AES (16-byte blocks) while the sender's own incoming cipher has 8-byte blocks: every residue mod 16
+        {**base, "cip": "aes128-ctr", "scip": "none", "mac": "hmac-md5", "banner": [], "version": v,
+         "payloads": [("5e" + "41" * n) for n in range(0, 16)], "cuts": [100, 333], "seed": 11},
+        {**base, "cip": "aes256-cbc", "scip": "3des-cbc", "rcip": "3des-cbc", "mac": "none", "banner": [], "version": v,
+         "payloads": [("5e" + "42" * n) for n in range(7, 23)], "cuts": [], "seed": 12},
+        {**base, "cip": "3des-cbc", "scip": "aes128-cbc", "mac": "hmac-sha1", "banner": [], "version": v,
+         "payloads": [("5e" + "43" * n) for n in range(0, 16)], "cuts": [64], "seed": 13},
+        # zlib negotiated, a completed re-key, then payloads in both directions (both zlib contexts must be fresh)
+        {"kind": "rekey", "comp": True, "seed": 5, "script":
+            [["send", "c", 94, "aa01"], ["send", "s", 95, "bb01"], ["rekey", "s"], ["settle"], ["send", "c", 94, "aa02"],
+             ["send", "s", 95, "bb02"], ["rekey", "c"], ["settle"], ["send", "c", 94, "aa03"], ["send", "s", 95, "bb03"]]},
+        # known finding: sendDebug between our NEWKEYS and the peer's
+        {"kind": "rekey", "comp": True, "seed": 800376457, "script":
+            [["rekey", "s"], ["pump", "s", 3], ["pump", "c", 3], ["pump", "s", 1], ["debug", "c", "0d9e"]]},
         # payloads sent while a re-key is in progress, both directions (seeded/C35-C scenario)
         {"kind": "rekey", "comp": False, "seed": 3, "script":
             [["send", "c", 94, "6100"], ["rekey", "c"], ["send", "c", 94, "6101"], ["send", "c", 94, "6102"],
@@ -543,12 +624,11 @@ def corpus():
 
 
 def to_coq(case):
-    h = stable_hash(case)
-    if h not in _TR:
-        impl(case)
-    tr = _TR[h]
+    tr = _TR.get(stable_hash(case))
+    if tr is None:
+        return None         # the implementation run left no transcript (it crashed): oracle only, never re-run here
     if case.get("kind") == "rekey":
-        if tr.get("limbo"):
+        if tr.get("limbo") or tr.get("trouble"):
             return None     # outside the modelled fragment (known finding message-between-newkeys-uses-old-keys)
         def kop(o):
             if o[0] == "S":
@@ -562,7 +642,7 @@ def to_coq(case):
     dz = coq_list(["None" if d is None else f"(Some {coq_bytes(d)})" for d in tr["dz"]], "(option bytes)")
     items = coq_list([f"({coq_bytes(z)}, {coq_bytes(p)})" for z, p in zip(tr["z"], tr["pads"])], "(bytes * bytes)%type")
     chunks = coq_list([coq_bytes(c) for c in tr["chunks"]], "bytes")
-    return f"(inl (({tr['bs']}%N, {tr['ms']}%N), ({dec}, {ver}, {dz}), {items}, {chunks}))"
+    return f"(inl (({tr['bs']}%N, {tr['ms']}%N, {tr['sdec']}%N), ({dec}, {ver}, {dz}), {items}, {chunks}))"
 
 
 def shrink(case):
@@ -611,8 +691,10 @@ SPEC = Spec(
          "after every banner newline; every third case flips one byte of the encrypted stream; for the tampered cases and a third of the others the receiver's OUTGOING cipher and MAC are "
          "chosen independently of the incoming ones (incl. none on one side only); preambles around the 4 KB limit; 60 "
          "(thorough 1500) re-key histories on a real client/server pair over in-memory transports: 3-15 ops of send "
-         "(service types 50-255) / sendDebug / sendKexInit on either side / deliver the next k packets, key exchanges run "
-         "for real; non-trivial = something delivered or a disconnect; distinct by (case, observation)",
+         "(service types 50-255) / sendDebug / sendKexInit on either side / deliver the next k packets / run to rest, key "
+         "exchanges run for real; structured zlib/none scripts with payloads before, during and after 1 or 2 completed "
+         "re-keys started by either side; the full (outgoing cipher) x (sender's own incoming cipher) product with 8 "
+         "payloads covering consecutive lengths (all residues mod 16 per pair of block sizes); non-trivial = something delivered or a disconnect; distinct by (case, observation)",
     trusted=["hand-written model coq/C35/Model.v (tied by this correspondence run only)",
              "oracle transcripts: the model is evaluated with the answers the real decryptor and decompressor gave "
              "during the implementation run, replayed in call order, and with the ideal MAC 'verify(seq, p, m) iff the "
